@@ -206,13 +206,13 @@ fn threads(a: &[String]) {
     // shared instances
     let mut shared: Vec<SharedInst> = Vec::new();
     let mut backing = sim::mem::Slots::new();
-    // systematically: the first listed family gets a combined instance (and, if it has halves, one
-    // of them); then a few random ones
-    let mut wanted: Vec<(usize, Option<Role>)> = vec![(fam_idx[0], Some(Role::Both))];
+    // systematically: every listed family gets a shared combined instance (the first one also one of
+    // its halves, if it has any); then perhaps a random one
+    let mut wanted: Vec<(usize, Option<Role>)> = fam_idx.iter().map(|&f| (f, Some(Role::Both))).collect();
     if reg.families[fam_idx[0]].split {
         wanted.push((fam_idx[0], Some(*rng.pick(&[Role::Enc, Role::Dec]))));
     }
-    for _ in 0..(1 + rng.below(2)) {
+    if rng.chance(1, 2) {
         wanted.push((*rng.pick(&fam_idx), None));
     }
     for (fam, want_role) in wanted {
